@@ -224,6 +224,39 @@ def spec_view(record_line):
     return "|".join(out)
 
 
+def prop_rec(rec):
+    """the part of a specification record the property talks about: output (index dropped) + live entries"""
+    p = rec.split("#")
+    if len(p) != 3:
+        return rec
+    ents = ";".join(x for x in p[2].split(";") if x not in ("~", "-"))
+    return re.sub(r"^f\d+:", "f:", p[0]) + "#" + ents
+
+
+def property_diff(line, impl_view, spec_view_):
+    """First step at which the real table and the Lean slot specification differ in what the property
+    is about.  Capacity and the moment tombstones are dropped are not part of the property; once they
+    differ, slot numbers are no longer comparable, so the comparison stops at the next operation that
+    takes or returns a slot number (X, D, Z)."""
+    ops = line.split(" ")[2].split(";")
+    a, b = impl_view.split("|"), spec_view_.split("|")
+    if len(a) != len(b):
+        return min(len(a), len(b)), "record-count"
+    diverged = False
+    for k in range(len(a)):
+        c = ops[k][0] if k < len(ops) else "?"
+        if diverged and c in "XDZ":
+            return None, None
+        if c == "X":
+            if not diverged and a[k].split("#")[0] != b[k].split("#")[0]:
+                return k, "index-lookup"
+        elif prop_rec(a[k]) != prop_rec(b[k]):
+            return k, "entries-or-output"
+        if a[k] != b[k]:
+            diverged = True
+    return None, None
+
+
 def proposed_findings():
     """finding: lines proposed in notes/findings-hashtable.txt (same format as known-findings.txt).
     known-findings.txt is a shared file this area may not edit; until the proposal is merged there (or
@@ -301,12 +334,14 @@ def run(ctx):
                      {"line": l, "verdict": verdicts[i]})
         sv = spec_view(impl[i])
         if sv != spec[i]:
-            # first differing step
-            a, b = sv.split("|"), spec[i].split("|")
-            k = next((j for j in range(min(len(a), len(b))) if a[j] != b[j]), min(len(a), len(b)))
-            ctx.fail("spec:slots-differ", "the real table differs from the Lean slot specification at step %d: impl %s spec %s on %s" % (
-                k, (a[k] if k < len(a) else "<missing>")[:300], (b[k] if k < len(b) else "<missing>")[:300], l[:400]),
-                {"line": l, "step": k, "impl_view": sv[:3000], "spec": spec[i][:3000]})
+            k, why = property_diff(l, sv, spec[i])
+            if k is not None:
+                a, b = sv.split("|"), spec[i].split("|")
+                ctx.fail("spec:" + why, "the real table differs from the Lean slot specification at step %d (%s): impl %s spec %s on %s" % (
+                    k, why, (a[k] if k < len(a) else "<missing>")[:300], (b[k] if k < len(b) else "<missing>")[:300], l[:400]),
+                    {"line": l, "step": k, "impl_view": sv[:3000], "spec": spec[i][:3000]})
+            # otherwise only capacity / compaction timing differs: that is a layout disagreement, already
+            # recorded by ctx.correspond above, not a failure of the ordered-map property
     ctx.count("ordered-map oracle (Lean Slots spec + std::vector reference) on C++ results, steps", n_steps, len(set(lines)))
 
     # ---- self-merge on the real code (operands cannot alias in the model)
